@@ -48,11 +48,12 @@ class F:
 
 class D:
     """directory. names: list[str] or callable -> list[str]."""
-    __slots__ = ("names", "list_err")
+    __slots__ = ("names", "list_err", "size")
 
-    def __init__(self, names=(), list_err=None):
+    def __init__(self, names=(), list_err=None, size=0):
         self.names = names
         self.list_err = list_err
+        self.size = size          # st_size reported by stat() (int or callable)
 
 
 class L:
@@ -275,7 +276,7 @@ def _v_stat_common(kind, realfn, path, follow, kw):
                         raise oserr(errno.ENOENT, p)
                     return _v_stat(t)
                 if isinstance(n, D):
-                    return _mkstat(statmod.S_IFDIR | 0o555)
+                    return _mkstat(statmod.S_IFDIR | 0o555, size=n.size() if callable(n.size) else n.size)
                 return _mkstat(statmod.S_IFREG | n.mode)
     return realfn(path, **kw)
 
